@@ -416,3 +416,179 @@ Proof.
       apply In_remove_key; assumption.
 Qed.
 End RemoveInv.
+
+Lemma remove_fold_inv s0 n nd keep : forall files a err,
+  to_backup s0 n = true ->
+  forallb (fun m => negb (memb 37 m) && (negb (ends_tilde m) || to_backup s0 m)) files = true ->
+  rinv n nd a -> rinv n nd (fst (fold_left (remove_one keep false s0) files (a, err))).
+Proof.
+  induction files as [|m files IH]; intros a err Hp Hg Hi; [exact Hi|].
+  cbn [fold_left]. cbn [forallb] in Hg. apply andb_true_iff in Hg as [Hm Hg].
+  destruct err.
+  - cbn [remove_one]. apply IH; assumption.
+  - destruct keep.
+    + cbn [remove_one]. apply IH; assumption.
+    + pose proof (remove_one_inv s0 n nd Hp a m Hm Hi) as H1.
+      destruct (remove_one false false s0 (a, false) m) as [a' e']. apply IH; assumption.
+Qed.
+
+Lemma forallb_dedup f l : forallb f l = true -> forallb f (dedup l) = true.
+Proof.
+  induction l as [|a l IH]; simpl; [auto|]. intros H. apply andb_true_iff in H as [H1 H2].
+  destruct (memn a l); simpl; [auto|]. rewrite H1. auto.
+Qed.
+
+(* remove without --force: what the loop would back up stays on disk, under its own name or a longer one *)
+Theorem remove_preserves s files keep n nd :
+  NoDup (names (disk s)) -> rm_guard s files = true ->
+  lookup n (disk s) = Some nd -> to_backup s n = true ->
+  exists n', prefixb n n' = true /\ In (n', nd) (disk (fst (remove files keep false s))).
+Proof.
+  intros Hd Hg Hl Hp.
+  assert (Hi : rinv n nd s).
+  { split; [exact Hd|]. exists n. split; [apply prefixb_refl|]. split; [apply lookup_In; exact Hl|auto]. }
+  pose proof (remove_fold_inv s n nd keep (dedup files) s false Hp (forallb_dedup _ _ Hg) Hi) as H.
+  unfold remove. destruct (fold_left _ _ _) as [a err]. cbn [fst] in H.
+  destruct H as [_ [n' [H1 [H2 _]]]]. exists n'. split; [exact H1|]. destruct err; exact H2.
+Qed.
+
+(* --keep: nothing on disk changes at all, whatever --force says *)
+Theorem remove_keep_disk s files force : disk (fst (remove files true force s)) = disk s.
+Proof.
+  unfold remove.
+  assert (H : forall l a, fold_left (remove_one true force s) l (a, false) = (a, false)).
+  { induction l as [|m l IH]; intros a; [reflexivity|]. cbn [fold_left remove_one]. apply IH. }
+  rewrite H. reflexivity.
+Qed.
+
+(* unknown: not versioned and not a path of the basis; modified: versioned, added or changed and present *)
+Lemma to_backup_unknown s n : memn n (inv s) = false -> lookup n (basis s) = None -> to_backup s n = true.
+Proof. intros H1 H2. unfold to_backup. rewrite H1, H2. reflexivity. Qed.
+
+Lemma to_backup_modified s n nd :
+  memn n (inv s) = true -> lookup n (disk s) = Some nd ->
+  lookup n (basis s) = None \/ changed_content (lookup n (basis s)) (Some nd) = true ->
+  to_backup s n = true.
+Proof.
+  intros H1 H2 H3. unfold to_backup. rewrite H1, H2. destruct H3 as [-> | ->]; [reflexivity|].
+  cbn. apply orb_true_r.
+Qed.
+
+(* witnesses *)
+(* K: "rm --keep f", edit f, "rm f": the unversioned file is deleted, no backup, no --force *)
+Definition s_kept : state :=
+  {| basis := [(nA, NFile (b_ "one"))]; inv := []; disk := [(nA, NFile (b_ "EDITED"))]; mm := [] |}.
+Lemma remove_kept_refuted :
+  memn nA (inv s_kept) = false /\ rm_guard s_kept [nA] = true
+  /\ lookup nA (disk s_kept) = Some (NFile (b_ "EDITED"))
+  /\ remove [nA] false false s_kept = ({| basis := basis s_kept; inv := []; disk := []; mm := [] |}, false).
+Proof. repeat split. Qed.
+
+(* H: the probe for "%41.~1~" looks at "A.~1~": an existing "%41.~1~" is overwritten *)
+Definition nP : bytes := [37; 52; 49].
+Definition s_pct : state :=
+  {| basis := [(nP, NFile (b_ "one"))]; inv := [nP];
+     disk := [(nP, NFile (b_ "EDIT 2")); (backup_name nP 1, NFile (b_ "PRECIOUS"))]; mm := [] |}.
+Lemma remove_percent_refuted :
+  memn (backup_name nP 1) (inv s_pct) = false /\ lookup (backup_name nP 1) (basis s_pct) = None
+  /\ lookup (backup_name nP 1) (disk s_pct) = Some (NFile (b_ "PRECIOUS"))
+  /\ snd (remove [nP] false false s_pct) = false
+  /\ forall n', ~ In (n', NFile (b_ "PRECIOUS")) (disk (fst (remove [nP] false false s_pct))).
+Proof.
+  repeat split. intros n' H. vm_compute in H. repeat (destruct H as [H|H]; [discriminate|]). exact H.
+Qed.
+
+(* a non-ASCII name that needs a backup: the probe raises, remove fails half-way (inventory untouched) *)
+Definition nE : bytes := [195; 169; 120].
+Definition s_na : state :=
+  {| basis := [(nE, NFile (b_ "one"))]; inv := [nE]; disk := [(nE, NFile (b_ "EDIT"))]; mm := [] |}.
+Lemma remove_nonascii_raises : remove [nE] false false s_na = (s_na, true).
+Proof. reflexivity. Qed.
+
+(* with --force (and no --keep) unknown content IS deleted: force is what it takes *)
+Definition s_unk : state := {| basis := []; inv := []; disk := [(nA, NFile (b_ "unk"))]; mm := [] |}.
+Example remove_force_deletes : disk (fst (remove [nA] false true s_unk)) = [].
+Proof. reflexivity. Qed.
+Example remove_noforce_ex :
+  rm_guard s_unk [nA] = true /\ to_backup s_unk nA = true
+  /\ disk (fst (remove [nA] false false s_unk)) = [(backup_name nA 1, NFile (b_ "unk"))].
+Proof. repeat split. Qed.
+
+(* ================================================================== Part 4: one path through a merge *)
+
+Lemma text_merge_unflagged o b t ot rs ls :
+  text_merge o b t ot rs = Some (ls, false) ->
+  has_conflict rs = false /\ ls = clean_lines b t ot rs.
+Proof.
+  unfold text_merge. destruct (o_show_base o && o_reprocess o); [discriminate|].
+  intros H. injection H as Hls Hf.
+  assert (Hc : has_conflict rs = false).
+  { destruct (has_conflict rs) eqn:E; [|reflexivity].
+    rewrite (conflict_flagged (o_show_base o) b t ot (newline_of t) rs E) in Hf. discriminate. }
+  split; [exact Hc|]. subst ls.
+  rewrite map_post_id.
+  - apply merge_lines_clean. exact Hc.
+  - intros l Hl. destruct (prefixb START l) eqn:P; [|reflexivity].
+    assert (existsb (prefixb START) (merge_lines START (o_show_base o) (newline_of t) b t ot rs) = true)
+      by (apply existsb_exists; eauto).
+    congruence.
+Qed.
+
+Definition base_lines (base : option (list line)) : list line := match base with Some b => b | None => [] end.
+
+Theorem merge_keeps_local_or_clean o base this tv sid other rs r :
+  merge_entry o base this tv sid other rs = Some r ->
+  (r_main r = Some (text this) \/ r_this r = Some (text this) \/ r_moved r = Some (text this))
+  \/ (exists b, base = Some b /\ text b = text this /\ r_main r = option_map text other /\ r_conf r = ""%string)
+  \/ (exists ot, other = Some ot /\ has_conflict rs = false /\ r_conf r = ""%string
+                 /\ r_main r = Some (text (clean_lines (base_lines base) this ot rs))).
+Proof.
+  unfold merge_entry. destruct tv; cbn [negb].
+  - destruct base as [b|], other as [ot|].
+    + (* both present: C19's merge_file *)
+      destruct (merge_file o b this ot rs (wt0 this)) as [w|] eqn:M; [|discriminate].
+      intros H. injection H as <-. unfold merge_file in M.
+      destruct (bytes_eqb (text b) (text ot)) eqn:E1; [injection M as <-; left; left; reflexivity|].
+      destruct (bytes_eqb (text this) (text ot)) eqn:E2; [injection M as <-; left; left; reflexivity|].
+      destruct (bytes_eqb (text b) (text this)) eqn:E3.
+      * injection M as <-. right. left. exists b. apply tbeq_eq in E3. repeat split; auto.
+      * destruct (text_merge o b this ot rs) as [[ls [|]]|] eqn:T; [| |discriminate]; injection M as <-.
+        -- left. right. left. reflexivity.
+        -- apply text_merge_unflagged in T as [Hc ->]. right. right. exists ot. repeat split; auto.
+    + destruct (bytes_eqb (text this) (text b)) eqn:E; intros H; injection H as <-.
+      * right. left. exists b. apply tbeq_eq in E. repeat split; auto.
+      * left. right. left. reflexivity.
+    + destruct sid.
+      * destruct (bytes_eqb (text this) (text ot)); [intros H; injection H as <-; left; left; reflexivity|].
+        destruct (text_merge o [] this ot rs) as [[ls [|]]|] eqn:T; [| |discriminate]; intros H; injection H as <-.
+        -- left. right. left. reflexivity.
+        -- apply text_merge_unflagged in T as [Hc ->]. right. right. exists ot. repeat split; auto.
+      * intros H. injection H as <-. left. right. right. reflexivity.
+    + intros H. injection H as <-. left. left. reflexivity.
+  - (* unversioned on disk *)
+    destruct base as [b|], other as [ot|]; try (intros H; injection H as <-; left; left; reflexivity).
+    + destruct (bytes_eqb (text b) (text ot)); intros H; injection H as <-; left; left; reflexivity.
+    + intros H. injection H as <-. left. right. right. reflexivity.
+Qed.
+
+(* a locally changed file (relative to BASE) is never silently replaced *)
+Corollary merge_keeps_user_edited o b this tv sid other rs r :
+  merge_entry o (Some b) this tv sid other rs = Some r -> text b <> text this ->
+  (r_main r = Some (text this) \/ r_this r = Some (text this) \/ r_moved r = Some (text this))
+  \/ (exists ot, other = Some ot /\ has_conflict rs = false /\ r_conf r = ""%string
+                 /\ r_main r = Some (text (clean_lines b this ot rs))).
+Proof.
+  intros H Hne. destruct (merge_keeps_local_or_clean _ _ _ _ _ _ _ _ H) as [K|[[b' [E [Ht _]]]|K]]; auto.
+  injection E as <-. contradiction.
+Qed.
+
+Example merge_ex_conflict :
+  exists r, merge_entry {| o_reprocess := false; o_show_base := false |} (Some [b_ "a"]) [b_ "A"] true true
+              (Some [b_ "B"]) [IConflict 0 1 0 1 0 1] = Some r
+            /\ r_this r = Some (b_ "A") /\ r_conf r = "text"%string.
+Proof. eexists. split; [vm_compute; reflexivity|]. split; reflexivity. Qed.
+
+(* ================================================================== uncommit *)
+Theorem uncommit_tree_untouched nb s :
+  disk (uncommit_tree nb s) = disk s /\ inv (uncommit_tree nb s) = inv s /\ mm (uncommit_tree nb s) = mm s.
+Proof. repeat split. Qed.
